@@ -188,7 +188,7 @@ pub(crate) fn derive_struct_diff_struct(struct_: &Struct) -> TokenStream {
 
                     l!(
                         diff_body,
-                        "if self.{} != updated.{} {{diffs.push(Self::Diff::{}(updated.{}.clone()))}};",
+                        "if self.{} != updated.{} {{diffs.push(Self::Diff::{}(::core::clone::Clone::clone(&updated.{})))}};",
                         field_name,
                         field_name,
                         field_name,
@@ -221,7 +221,7 @@ pub(crate) fn derive_struct_diff_struct(struct_: &Struct) -> TokenStream {
                             l!(setters_body, "\n/// Setter generated by StructDiff. Use to set the {} field and generate a diff if necessary", name_override);
                             l!(setters_body, "\npub fn {}(&mut self, value: {}) -> Option<<Self as StructDiff>::Diff> {{", name_override, field.ty.full());
                             l!(setters_body, "\n\tif self.{} == value {{return None}};", field_name);
-                            l!(setters_body, "\n\tlet diff = <Self as StructDiff>::Diff::{}(value.clone());", field_name);
+                            l!(setters_body, "\n\tlet diff = <Self as StructDiff>::Diff::{}(::core::clone::Clone::clone(&value));", field_name);
                             l!(setters_body, "\n\tself.{} = value;", field_name);
                             l!(setters_body, "\n\treturn Some(diff)");
                             l!(setters_body, "\n}");
@@ -230,7 +230,7 @@ pub(crate) fn derive_struct_diff_struct(struct_: &Struct) -> TokenStream {
                             l!(setters_body, "\n/// Setter generated by StructDiff. Use to set the {} field and generate a diff if necessary", field_name);
                             l!(setters_body, "\npub fn set_{}_with_diff(&mut self, value: {}) -> Option<<Self as StructDiff>::Diff> {{", field_ident, field.ty.full());
                             l!(setters_body, "\n\tif self.{} == value {{return None}};", field_name);
-                            l!(setters_body, "\n\tlet diff = <Self as StructDiff>::Diff::{}(value.clone());", field_name);
+                            l!(setters_body, "\n\tlet diff = <Self as StructDiff>::Diff::{}(::core::clone::Clone::clone(&value));", field_name);
                             l!(setters_body, "\n\tself.{} = value;", field_name);
                             l!(setters_body, "\n\treturn Some(diff)");
                             l!(setters_body, "\n}");
@@ -254,7 +254,7 @@ pub(crate) fn derive_struct_diff_struct(struct_: &Struct) -> TokenStream {
 
                     l!(
                         diff_body,
-                        "if self.{} != updated.{} {{diffs.push(Self::Diff::{}(updated.{}.clone()))}};",
+                        "if self.{} != updated.{} {{diffs.push(Self::Diff::{}(::core::clone::Clone::clone(&updated.{})))}};",
                         field_name,
                         field_name,
                         field_name,
@@ -286,7 +286,7 @@ pub(crate) fn derive_struct_diff_struct(struct_: &Struct) -> TokenStream {
                             l!(setters_body, "\n/// Setter generated by StructDiff. Use to set the {} field and generate a diff if necessary", name_override);
                             l!(setters_body, "\npub fn {}(&mut self, value: {}) -> Option<<Self as StructDiff>::Diff> {{", name_override, field.ty.full());
                             l!(setters_body, "\n\tif self.{} == value {{return None}};", field_name);
-                            l!(setters_body, "\n\tlet diff = <Self as StructDiff>::Diff::{}(value.clone());", field_name);
+                            l!(setters_body, "\n\tlet diff = <Self as StructDiff>::Diff::{}(::core::clone::Clone::clone(&value));", field_name);
                             l!(setters_body, "\n\tself.{} = value;", field_name);
                             l!(setters_body, "\n\treturn Some(diff)");
                             l!(setters_body, "\n}");
@@ -295,7 +295,7 @@ pub(crate) fn derive_struct_diff_struct(struct_: &Struct) -> TokenStream {
                             l!(setters_body, "\n/// Setter generated by StructDiff. Use to set the {} field and generate a diff if necessary", field_name);
                             l!(setters_body, "\npub fn set_{}_with_diff(&mut self, value: {}) -> Option<<Self as StructDiff>::Diff> {{", field_ident, field.ty.full());
                             l!(setters_body, "\n\tif self.{} == value {{return None}};", field_name);
-                            l!(setters_body, "\n\tlet diff = <Self as StructDiff>::Diff::{}(value.clone());", field_name);
+                            l!(setters_body, "\n\tlet diff = <Self as StructDiff>::Diff::{}(::core::clone::Clone::clone(&value));", field_name);
                             l!(setters_body, "\n\tself.{} = value;", field_name);
                             l!(setters_body, "\n\treturn Some(diff)");
                             l!(setters_body, "\n}");
